@@ -4,7 +4,7 @@
 //! (Trace_Csv.tla) decides whether that is what the row says.  Also re-reads the shipped
 //! registry file and compares it with an independent parse.
 
-use crate::replay_csv::{read_file, row_json_real};
+use crate::replay_csv::{read_file, row_json_real, strip_term};
 use crate::util::*;
 use precis_tools::PrecisDerivedProperty;
 use serde_json::{json, Value};
@@ -145,6 +145,10 @@ fn gen_row(rng: &mut Rng) -> (Vec<String>, Vec<(String, u32)>, bool) {
         }
         toks.push(rng.pick(&WORDS).to_string());
     }
+    // one description in six ends in white space (which belongs to the description)
+    if rng.chance(1, 6) {
+        toks.push(rng.pick(&[" ", "\t", "\u{a0}", "  ", "\u{3000}"]).to_string());
+    }
     (toks, hex, corrupted)
 }
 
@@ -182,7 +186,8 @@ pub fn main(args: &[String]) {
             Ok(Err(_)) => json!({"st": "err"}),
             Ok(Ok(p)) => {
                 let j = row_json_real(&p);
-                let descok = tokens_after_second_comma(&toks).map(|d| d + term == p.description).unwrap_or(false);
+                // "the same description text (up to the line terminator)"
+                let descok = tokens_after_second_comma(&toks).map(|d| strip_term(&(d + term)) == strip_term(&p.description)).unwrap_or(false);
                 json!({"st": "ok", "cps": j["cps"], "props": j["props"], "descok": descok})
             }
         };
@@ -213,7 +218,7 @@ pub fn main(args: &[String]) {
                 None => json!({"k": "S", "c": u32::from_str_radix(c, 16).unwrap_or(0)}),
             };
             let props: Vec<&str> = p.split(" or ").collect();
-            let exp = json!({"ok": {"cps": cps, "props": props, "desc": d}});
+            let exp = json!({"ok": {"cps": cps, "props": props, "desc": strip_term(d)}});
             if items.get(i) != Some(&exp) {
                 diffs += 1;
                 if first.is_null() {
